@@ -21,7 +21,7 @@ def capPow2 (required : Nat) : Nat :=
 structure RelID where
   comp : Comp
   target : Ent
-  deriving DecidableEq, Repr, Inhabited, BEq
+  deriving DecidableEq, Repr, Inhabited
 
 structure Table where
   id : Nat
